@@ -120,6 +120,13 @@ def run(ctx):
                 c = P.mon_class(line)
                 if c is None:
                     ctx.problem("machinery", line, "processor harness, history %s" % h["id"])
+                elif c == "C01" and "locally assembled" in line and line not in seen:
+                    # "the contracts recompute that same digest from the serialized VAA": a VAA the node assembled from its own observation
+                    # whose signatures do not verify over the published body means the published body is not the one that was signed
+                    seen.add(line)
+                    ctx.problem("monitor", "C04: the VAA the node published for its own observation does not hash to the digest the guardians signed (" + line + ")",
+                                "observed on the real handlers, history %s (%s)" % (h["id"], h.get("shape")), concrete=True,
+                                replay=P.replay_obj(h, line), key="C04:published-body-is-not-the-signed-body")
                 elif c == "C04" and line not in seen:
                     seen.add(line)
                     ctx.problem("monitor", line, "observed on the real handleMessage, history %s (%s)" % (h["id"], h.get("shape")), concrete=True,
